@@ -139,6 +139,20 @@ impl Write for Sink {
         self.out.extend_from_slice(&buf[..n]);
         Ok(n)
     }
+    /// The sink is a vectored writer of its own (like a pipe or socket): one scripted call may accept bytes across
+    /// the slices it is offered, and stop in the middle of any of them. Serialisers that use `write_vectored`
+    /// must cope with that; the ones that only use `write` / `write_all` never reach this.
+    fn write_vectored(&mut self, bufs: &[io::IoSlice<'_>]) -> io::Result<usize> {
+        let total: usize = bufs.iter().map(|b| b.len()).sum();
+        if total == 0 {
+            return Ok(0);
+        }
+        let mut flat = Vec::with_capacity(total);
+        for b in bufs {
+            flat.extend_from_slice(b);
+        }
+        self.write(&flat)
+    }
     fn flush(&mut self) -> io::Result<()> {
         Ok(())
     }
